@@ -45,6 +45,7 @@ type c19Env struct {
 	portA, portB                  string
 	srcIP                         string // source address of observation clients ("" = default)
 	noHome                        bool   // start the server without HOME / XDG_CONFIG_HOME in its environment
+	iniPad                        int    // > 0: configuration files carry this many bytes of comment lines before and inside [server]
 }
 
 func newC19Env(base string) *c19Env {
@@ -120,6 +121,10 @@ func (e *c19Env) start(assigns []c19Assign, wait time.Duration) (*BinSrv, error)
 	pre := []string{}
 	for ch, lines := range ini {
 		content := "[server]\n" + strings.Join(lines, "\n") + "\n"
+		if e.iniPad > 0 {
+			pad := strings.Repeat("; a comment line, as found in a generously documented configuration file\n", e.iniPad/72+1)
+			content = pad + "\n[server]\n" + pad + strings.Join(lines, "\n") + "\n" + pad
+		}
 		switch ch {
 		case "configflag":
 			p := filepath.Join(e.base, "flag.ini")
@@ -295,11 +300,12 @@ func (e *c19Env) observe(b *BinSrv, setting string, expect string) (got string, 
 func TestC19(t *testing.T) {
 	r := NewReporter(t)
 	defer r.Done()
-	r.Rule("9 settings x 6 channels (flag, environment variable, --config file, PS3NETSRV_CONFIG_FILE file, ./config.ini, user config dir) alone; command-line flag vs every other channel with a conflicting value; malformed values of whitelist / max-clients / root / read-timeout on every channel; every case is one start of the real binary whose behaviour is observed from outside; oracle: flag wins, otherwise the single channel has its effect; malformed -> non-zero exit and never listening; distinct by (setting, channel assignment)")
+	r.Rule("9 settings x 6 channels (flag, environment variable, --config file, PS3NETSRV_CONFIG_FILE file, ./config.ini, user config dir) alone; command-line flag vs every other channel with a conflicting value; malformed values of whitelist / max-clients / root / read-timeout on every channel; configuration files with 3000 / 5000 / 70000 bytes of comment lines around the keys; every case is one start of the real binary whose behaviour is observed from outside; oracle: flag wins, otherwise the single channel has its effect; malformed -> non-zero exit and never listening; distinct by (setting, channel assignment)")
 	base := filepath.Join(scratchBase(), sprintf("verifh-c19-%d", os.Getpid()))
 	defer os.RemoveAll(base)
 	type tc struct {
 		noHome  bool
+		iniPad  int
 		name    string
 		assigns []c19Assign
 		setting string
@@ -327,6 +333,20 @@ func TestC19(t *testing.T) {
 		cases = append(cases, tc{noHome: true, name: "json-log via " + ch + " without HOME", setting: "json-log", expect: "A", assigns: []c19Assign{{ch, "json-log", "A"}}})
 		cases = append(cases, tc{noHome: true, name: "allow-write via " + ch + " without HOME", setting: "allow-write", expect: "A", assigns: []c19Assign{{ch, "allow-write", "A"}}})
 		cases = append(cases, tc{noHome: true, name: "client-whitelist malformed via " + ch + " without HOME", setting: "client-whitelist", bad: true, assigns: []c19Assign{{ch, "client-whitelist", "not-an-address"}}})
+	}
+	// long configuration files (keys far behind the start of the file): same effect, same refusal
+	for _, pad := range []int{3000, 5000, 70000} {
+		for _, ch := range []string{"configflag", "configenv", "cwdini", "userini"} {
+			if pad != 5000 && ch != "configflag" && ch != "userini" {
+				continue
+			}
+			cases = append(cases, tc{iniPad: pad, name: sprintf("json-log via %s in a file with %d bytes of comments", ch, pad), setting: "json-log", expect: "A", assigns: []c19Assign{{ch, "json-log", "A"}}})
+			cases = append(cases, tc{iniPad: pad, name: sprintf("allow-write via %s in a file with %d bytes of comments", ch, pad), setting: "allow-write", expect: "A", assigns: []c19Assign{{ch, "allow-write", "A"}}})
+			cases = append(cases, tc{iniPad: pad, name: sprintf("client-whitelist via %s in a file with %d bytes of comments", ch, pad), setting: "client-whitelist", expect: "A", assigns: []c19Assign{{ch, "client-whitelist", "A"}}})
+			for _, bad := range [][2]string{{"client-whitelist", "not-an-address"}, {"max-clients", "many"}, {"read-timeout", "soon"}, {"root", "/nonexistent/dir/for/verif"}} {
+				cases = append(cases, tc{iniPad: pad, name: sprintf("%s malformed via %s in a file with %d bytes of comments", bad[0], ch, pad), setting: bad[0], bad: true, assigns: []c19Assign{{ch, bad[0], bad[1]}}})
+			}
+		}
 	}
 	// two configuration files present at once, each carrying a different setting: both must have their effect
 	filePairs := [][2]string{{"userini", "cwdini"}, {"cwdini", "configenv"}, {"userini", "configflag"}, {"configenv", "userini"}, {"configflag", "cwdini"}}
@@ -363,6 +383,7 @@ func TestC19(t *testing.T) {
 		os.RemoveAll(base)
 		e := newC19Env(base)
 		e.noHome = c.noHome
+		e.iniPad = c.iniPad
 		a, _ := e.values(c.setting)
 		var assigns []c19Assign
 		for _, x := range c.assigns {
